@@ -186,6 +186,13 @@ def run(ctx, eng):
     check_coh_frame_size(ctx, eng)
     check_output_slicing(ctx, eng)
     check_incomplete_frame(ctx, eng)
+    cm.include(ctx, eng, 'C06',
+               lambda o: o.rule == 'FSM.layer3' and isinstance(o.desc, str)
+               and o.desc.startswith('normal dispatch emits'),
+               'what a frame makes the connection send is queued when that '
+               'frame is handled, not at the end of the call: a connection '
+               'error raised by a later frame of the same chunk would drop '
+               'it, and the bytes would depend on the chunking')
     ctx.assume('equality of event lists under all chunkings as such is not '
                'decided; it rests on "the parser state is a function of the '
                'bytes so far", which the clauses establish structurally')
